@@ -1,0 +1,87 @@
+//! Verification hooks. Compiled only with `--cfg qvnt_verif`; nothing here is reachable
+//! in a normal build.
+
+use std::cell::RefCell;
+
+use rand::{rngs::StdRng, RngCore, SeedableRng};
+
+pub use crate::math::{bits_iter::BitsIter, count_bits, phase_from_rad, rotate};
+
+thread_local! {
+    static SEEDED: RefCell<Option<StdRng>> = RefCell::new(None);
+    static SCRIPT: RefCell<std::collections::VecDeque<u64>> = RefCell::new(Default::default());
+    static MEASURE_LOG: RefCell<Vec<(usize, usize)>> = RefCell::new(Vec::new());
+}
+
+/// Install (or remove) a seed for the current thread. While a seed is installed, every
+/// draw the register code makes through [`thread_rng`] on this thread comes from a
+/// `StdRng` seeded with it; without one, draws come from `rand::thread_rng()` as usual.
+pub fn seed(seed: Option<u64>) {
+    SEEDED.with(|s| *s.borrow_mut() = seed.map(StdRng::seed_from_u64));
+}
+
+/// Queue raw 64-bit words that are handed out (before the seeded / thread generator)
+/// by the next calls of `next_u64` on this thread.
+pub fn script(words: &[u64]) {
+    SCRIPT.with(|s| s.borrow_mut().extend(words.iter().copied()));
+}
+
+/// Random source used by the register code under `--cfg qvnt_verif`.
+pub struct VerifRng(rand::rngs::ThreadRng);
+
+pub fn thread_rng() -> VerifRng {
+    VerifRng(rand::thread_rng())
+}
+
+impl RngCore for VerifRng {
+    fn next_u32(&mut self) -> u32 {
+        self.next_u64() as u32
+    }
+
+    fn next_u64(&mut self) -> u64 {
+        if let Some(w) = SCRIPT.with(|s| s.borrow_mut().pop_front()) {
+            return w;
+        }
+        let seeded = SEEDED.with(|s| s.borrow_mut().as_mut().map(|r| r.next_u64()));
+        match seeded {
+            Some(w) => w,
+            None => self.0.next_u64(),
+        }
+    }
+
+    fn fill_bytes(&mut self, dest: &mut [u8]) {
+        for chunk in dest.chunks_mut(8) {
+            let w = self.next_u64().to_le_bytes();
+            chunk.copy_from_slice(&w[..chunk.len()]);
+        }
+    }
+
+    fn try_fill_bytes(&mut self, dest: &mut [u8]) -> Result<(), rand::Error> {
+        self.fill_bytes(dest);
+        Ok(())
+    }
+}
+
+/// Stand-in for the `rand` crate path inside `sample_all` (`rand::thread_rng()`).
+pub mod shim {
+    pub use super::thread_rng;
+}
+
+pub fn log_measure(mask: usize, rand_idx: usize) {
+    MEASURE_LOG.with(|l| l.borrow_mut().push((mask, rand_idx)));
+}
+
+/// `(effective mask, drawn basis index)` of every `measure_mask` draw made on this thread
+/// since the last call.
+pub fn take_measure_log() -> Vec<(usize, usize)> {
+    MEASURE_LOG.with(|l| std::mem::take(&mut *l.borrow_mut()))
+}
+
+#[cfg(feature = "interpreter")]
+pub fn process_gate<'t>(
+    name: &'t str,
+    regs: Vec<usize>,
+    args: Vec<f64>,
+) -> crate::qasm::int::Result<'t, crate::operator::MultiOp> {
+    crate::qasm::int::verif_process(name, regs, args)
+}
